@@ -46,6 +46,10 @@ def do_case(ctx, inp):
         res = copy.deepcopy(o).evaluate_propositions(render_interp(ctx.rng, I))
     got = sorted((k, int(b.lower), int(b.upper)) for k, b in res.items())
     ctx.op({"op": "evalprops", "t": t, "I": interp_json(I)}, {"res": [list(x) for x in got]})
+    if ctx.rng.random() < 0.3:
+        # models built from this one (its negation, an implication over it) are not touched by evaluating it
+        if kin_probe(ctx, o, lambda m: m.evaluate_propositions(render_interp(ctx.rng, I)), "evaluated", {"interpretation": interp_json(I)}):
+            return
     # oracle 1: every completion lies within the returned bounds
     over = {k: v for k, v in I.items() if k not in lv}
     box = {n: I.get(n, lv[n]) for n in lv}
@@ -116,6 +120,10 @@ def run(ctx):
     n_models = (200 if ctx.quick else 1500) * (3 if ctx.search else 1)
     for _ in range(n_models):
         a, o, t = gen_valid(ctx.rng, ctx.quick, prefix_p=0.2, empty_p=0.04)
+        if ctx.rng.random() < 0.15:
+            # the model is the OUTPUT of another operation (assume / reduce / negate / Not / Imply / a JSON, base64, pickle or
+            # deepcopy round trip, one or two of them) applied to a generated valid model
+            a, o, t = gen_derived(ctx.rng, ctx.quick); ctx.tags["derived-model-stream"] += 1
         if ctx.rng.random() < 0.12:
             a, o, t = gen_valid_signed_sum(ctx.rng)     # explicit signs against thresholds of either sign, leaves around zero
         elif ctx.rng.random() < 0.06:
